@@ -202,8 +202,8 @@ def wl_history(ctx, rng, case, force_width=None):
         elif r < 0.965:
             # a configuration corner: the query type is switched away and back between operations; the counters must not care
             case.op("toggle-query-type")
-            s.query_type = rng.choice(["mean", "mean-min", "MEAN", None, "bogus"])
-            s.query_type = "min"
+            s.query_type = rng.choice(["mean", "mean", "mean-min", "MEAN", None, "bogus"])
+            s.query_type = rng.choice(["min", None, "MIN", "bogus"])  # every documented way back to the min query
             k, ret = None, None
             ctx.count("query_type_toggles")
         else:
